@@ -233,6 +233,50 @@ fn counts_of(rec: &Js) -> Vec<(String, Vec<String>)> {
     out
 }
 
+/// The library's DEFAULT rng (no rng injected): for rates whose reciprocal is not an integer the
+/// weight must take both neighbouring integers, in the proportion that makes its mean 1/rate.
+/// The margins are 8 standard deviations wide (a false alarm has probability below 1e-14).
+fn default_rng_part(rep: &Report) {
+    let cfg = Cfg { validate: Validate::All, namespaces: vec!["NS".into()], default_dims: vec![vec![]], directives: vec![], log_group: None, ignored_dims: false };
+    let e = ProgramEntry::new(vec![POp::Value("one".into(), PVal::Metric { obs: vec![Obs::U(7), Obs::U(9)], unit: metrique_writer_core::Unit::None, dims: vec![], flags: None })]);
+    let n = 6000u64;
+    for rate in [0.4f32, 0.75, 0.3, 0.013] {
+        let mut s = cfg.build().with_sampling();
+        let inv = 1.0 / rate as f64;
+        let (lo, hi) = (inv.floor() as u64, inv.ceil() as u64);
+        let p_hi = inv - inv.floor();
+        let (mut n_lo, mut n_hi, mut other) = (0u64, 0u64, None);
+        for _ in 0..n {
+            let mut out = vec![];
+            if s.format_with_sample_rate(&e, &mut out, rate).is_err() {
+                rep.inconclusive("formatting a plain entry with the default rng failed (harness error)");
+                return;
+            }
+            let weights: Vec<String> = match parse_output(&out) {
+                ParseOutcome::Ok(lines) => lines.iter().flat_map(counts_of).flat_map(|c| c.1).collect(),
+                _ => vec![],
+            };
+            match weights.first().and_then(|w| w.parse::<u64>().ok()) {
+                Some(w) if w == lo => n_lo += 1,
+                Some(w) if w == hi => n_hi += 1,
+                w => other = Some(format!("{w:?} in {weights:?}")),
+            }
+            rep.eval();
+        }
+        let sd = (n as f64 * p_hi * (1.0 - p_hi)).sqrt();
+        let dev = (n_hi as f64 - n as f64 * p_hi).abs();
+        if other.is_some() || n_hi == 0 || n_lo == 0 || dev > 8.0 * sd {
+            rep.violation(
+                "default-rng-weights-biased",
+                json!({"what": "sampled formatter with the library's default rng: the weight (Counts entry) must be floor(1/rate) or ceil(1/rate), the upper one with probability frac(1/rate), so that the expected weight is 1/rate",
+                       "rate": rate, "formats": n, "weight_low": lo, "times_low": n_lo, "weight_high": hi, "times_high": n_hi, "expected_times_high": n as f64 * p_hi, "standard_deviation": sd, "other_weight_seen": other}),
+            );
+            return;
+        }
+        rep.count("default_rng_weights_checked", n);
+    }
+}
+
 fn public_api_part(args: &Args, rep: &Report) {
     let mut rng = Rng::derive(args.seed, 0x12);
     let cfg = Cfg { validate: Validate::All, namespaces: vec!["NS".into()], default_dims: vec![vec![]], directives: vec![], log_group: None, ignored_dims: false };
@@ -688,6 +732,59 @@ fn congress_steady_scenario(rng: &mut Rng, rep: &Report) -> bool {
     true
 }
 
+/// Rates just below 1: an interval that exceeds the target by a single entry of a singleton group
+/// gives that group a rate a few ulps below 1 (exactly 1 - 2^-23 for many targets). Such a rate is
+/// a rate like any other: with the largest possible draw (0.99999994) the entry is NOT emitted,
+/// with a draw equal to the rate it is.
+#[cfg(metrique_verif)]
+fn congress_near_one_scenario(rep: &Report) {
+    for target in (2300u32..2520).step_by(4).chain([50, 600, 6000]) {
+        let shared = SharedRng::new(target as u64);
+        let rec = RecFormat::default();
+        let mut c = CongressSampleBuilder::default().interval(Duration::from_secs(86_400)).target_entries_per_interval(target).build_with_rng(rec.clone(), shared.clone());
+        let mut id = 0u64;
+        for _ in 0..target {
+            let _ = c.format(&group_entry(id, "Common"), &mut io::sink());
+            id += 1;
+        }
+        let _ = c.format(&group_entry(id, "Rare"), &mut io::sink());
+        id += 1;
+        c.verif_end_interval();
+        let rates = c.verif_group_rates();
+        let Some(rate) = rates.iter().find(|r| r.0.len() == 1 && r.0[0].1 == "Rare").map(|r| r.1) else { continue };
+        rep.eval();
+        if !(rate < 1.0 && rate > 0.999) {
+            continue;
+        }
+        if rate == 1.0 - f32::EPSILON {
+            rep.count("congress_rates_of_exactly_one_minus_2^-23", 1);
+        }
+        let grid = rate as f64 * 16_777_216.0;
+        if grid.fract() != 0.0 {
+            continue;
+        }
+        for k in [(1u64 << 24) - 1, grid as u64 + 1, grid as u64] {
+            if k >= 1 << 24 {
+                continue;
+            }
+            shared.force_next(k << 40);
+            let before = rec.len();
+            let _ = c.format(&group_entry(id, "Rare"), &mut io::sink());
+            id += 1;
+            let emitted = rec.len() > before;
+            let draw = k as f32 / 16_777_216.0;
+            if emitted != (draw <= rate) {
+                rep.violation(
+                    "congress-decision-inconsistent",
+                    json!({"what": "a group whose rate is a few ulps below 1: emitted must be exactly (draw <= rate)", "target": target, "rate_in_force": format!("{rate:e}"), "rate_bits": format!("{:#x}", rate.to_bits()), "draw": format!("{draw:e}"), "emitted": emitted}),
+                );
+                return;
+            }
+            rep.count("congress_near_one_decisions_checked", 1);
+        }
+    }
+}
+
 fn main() {
     let args = Args::parse();
     let rep = Report::new("C12", &args);
@@ -707,6 +804,13 @@ fn main() {
     }
     if (which == "all" || which == "api") && rep.violation_count() == 0 {
         public_api_part(&args, &rep);
+    }
+    if (which == "all" || which == "api") && rep.violation_count() == 0 {
+        default_rng_part(&rep);
+    }
+    #[cfg(metrique_verif)]
+    if (which == "all" || which == "congress") && rep.violation_count() == 0 {
+        congress_near_one_scenario(&rep);
     }
     if (which == "all" || which == "decision") && rep.violation_count() == 0 {
         fixed_fraction_part(&args, &rep);
